@@ -47,6 +47,15 @@ Theorem c08_iteration_returns_everything_stored :
 Proof. exact IterateProofs.history_iterate_is_stored. Qed.
 Print Assumptions c08_iteration_returns_everything_stored.
 
+(** Everything together for whole histories of the session model: unshuffled iteration of a split yields exactly what the sessions
+    stored for it — every shard every filler (alone or as a writer of a multi-writer call) closed for that split, each once; and
+    what one filler stores for a split is its accepted writes to that split in caller order, shifted by the session's payload offset. *)
+Theorem c08_every_split_returns_everything_written_so_far :
+  forall eps : nat, 1 <= eps -> forall (h : list Meta.session) (fs : Meta.fsT) (info : Meta.dinfo), Meta.run_history eps h = Meta.Ok (fs, info) ->
+  forall s : split, Permutation (Meta.iterate fs info (split_code s)) (IterateProofs.wrote_history eps 0 h s).
+Proof. exact IterateProofs.history_iterate_is_written. Qed.
+Print Assumptions c08_every_split_returns_everything_written_so_far.
+
 (** With the assertion on the number of same-level updates removed (generated switch), the
     histories that used to fail — a second session in the same sub-directory, a session in the
     parent of a known child — complete, and iteration returns the old examples followed/preceded
